@@ -48,6 +48,21 @@ func c09Pair(seed uint64, aligned bool) *lib.Pair {
 	p.New.PutFile("copy-odd.bin", p.Old.E["copy-odd.bin"].Data)
 	p.Old.PutFile("copy-small.bin", rb(int64(r.Range(1, 5000))))
 	p.New.PutFile("sub/copy-small.bin", p.Old.E["copy-small.bin"].Data)
+	// contents for which a truncated block can look like the block that was validated just before it:
+	// a file ending in zeros that is the first thing validated, two identical files read back to back,
+	// a file whose blocks all carry the same bytes
+	zt := append(rb(int64(r.Range(100, 3000))), make([]byte, r.Range(2000, 40000))...)
+	p.Old.PutFile("aaa-zerotail.bin", zt)
+	p.New.PutFile("aaa-zerotail.bin", zt)
+	tw := rb(int64(r.Range(500, 60000)))
+	p.Old.PutFile("twin1.bin", tw)
+	p.Old.PutFile("twin2.bin", tw)
+	p.New.PutFile("twin1.bin", tw)
+	p.New.PutFile("twin2.bin", tw)
+	per := rb(lib.BS)
+	pd := append(append(append([]byte(nil), per...), per...), per[:r.Range(1000, 60000)]...)
+	p.Old.PutFile("periodic.bin", pd)
+	p.New.PutFile("periodic.bin", pd)
 	// one old file copied to several new paths (the same old file is read several times in a row)
 	p.Old.PutFile("dup-src.bin", rb(lib.BS+int64(r.Range(1, 3000))))
 	p.New.PutFile("dup-src.bin", p.Old.E["dup-src.bin"].Data)
@@ -62,7 +77,7 @@ func c09Pair(seed uint64, aligned bool) *lib.Pair {
 }
 
 var c09Reuse = map[string]string{"ranged.bin": "block-range|bsdiff", "copy-64k.bin": "whole-file-aligned", "copy-128k.bin": "whole-file-aligned",
-	"copy-odd.bin": "whole-file-unaligned", "copy-small.bin": "whole-file-unaligned", "dup-src.bin": "whole-file-duplicated", "empty.bin": "empty", "unreferenced.bin": "unreferenced"}
+	"copy-odd.bin": "whole-file-unaligned", "copy-small.bin": "whole-file-unaligned", "dup-src.bin": "whole-file-duplicated", "aaa-zerotail.bin": "whole-file-zerotail", "twin1.bin": "whole-file-twin", "twin2.bin": "whole-file-twin", "periodic.bin": "whole-file-periodic", "empty.bin": "empty", "unreferenced.bin": "unreferenced"}
 
 func c09Damages(p *lib.Pair) []lib.Damage {
 	var out []lib.Damage
